@@ -373,8 +373,101 @@ def scenarios():
     return out
 
 
+# ---------------------------------------------------------------------------
+# exhaustive placement: a failure at EVERY library function entry of a call
+
+XH_CHUNK = 60
+
+
+def xh_shapes():
+    """[(name, world, warm-up calls, faulted call, probes, cap, tiers, tail)]: call shapes whose every function entry
+    n = 1..cap receives fault F5 once (cap = entries measured on the pinned tree x 1.25 + one chunk; a placement beyond
+    the real number of entries does not fire and leaves an ordinary, compared call). `tail`: for the 70 000-entry
+    cache-filling calls only the first and last entries are walked one by one, the middle with a stride."""
+    by = dict((n, (w, c, p)) for n, w, c, p, _k in shapes())
+    out = []
+
+    def add(name, cap, tiers, warm=(), world=None, call=None, probes=None, tail=None):
+        if world is None:
+            world, call, probes = by[name]
+        out.append((name, world, list(warm), call, probes, cap, tiers, tail))
+
+    txt = ['foo', 'bar']
+    for holder in ('dict', 'Config'):
+        add('text-window/%s' % holder, 2940, 'quick thorough' if holder == 'dict' else 'thorough',
+            world=_w([{'id': 'c0', 'holder': holder, 'text': txt, 'snippets': USER_SN}]),
+            call=('c0', 'ul>li*>foo'), probes=[('c0', 'ul>li*'), ('c0', 'a')])
+    add('bem+context', 1980, 'quick thorough')
+    add('pug+text', 1260, 'quick thorough')
+    add('jsx+global', 2640, 'quick thorough')
+    add('lorem+text', 1200, 'quick thorough')
+    sw = _w([{'id': 'c0', 'holder': 'dict', 'type': 'stylesheet', 'cache': 'k0', 'snippets': STYLE_SN},
+             {'id': 'c1', 'holder': 'dict', 'type': 'stylesheet', 'cache': 'k0', 'snippets': STYLE_SN,
+              'options': {'stylesheet.unitless': [], 'stylesheet.intUnit': 'pt'}}], caches=['k0'])
+    add('cache-warm-small', 2100, 'quick thorough', warm=[('c0', 'm10')], world=sw, call=('c0', 'kmar+zom+klh'),
+        probes=[('c1', 'kmar+zom+klh'), ('c0', 'kwid+zidx')])
+    for name, cap in (('value-scope+peer', 660), ('css-in-js+raw-snippets', 1500), ('cache-warm/int-unit', 2640)):
+        w, c, p = by[name]
+        add(name + '/warm', cap, 'quick thorough' if cap < 2000 else 'thorough', warm=[c], world=w, call=c, probes=p)
+    add('text+snippets+bem/dict', 7380, 'thorough')
+    add('text+snippets/held-Config', 6300, 'thorough')
+    add('text+alias-chain', 11040, 'thorough')
+    add('text+peer/held-Config', 4080, 'thorough')
+    add('bare-expand', 3180, 'thorough')
+    add('deep-nesting+text+bem', 24420, 'thorough')
+    add('nested-groups+text', 7500, 'thorough')
+    add('cache-fill/unitless', None, 'thorough', tail=(3000, 4020, 20))
+    add('dependent-longhands/no-cache', None, 'thorough', tail=(1200, 3000, 50))
+    return out
+
+
+def xh_plan(tier):
+    "[(shape index, [fault specs])]: one history per chunk of XH_CHUNK consecutive placements"
+    out = []
+    for xi, (name, world, warm, call, probes, cap, tiers, tail) in enumerate(xh_shapes()):
+        if tier not in tiers.split():
+            continue
+        flavours = ('alt',) if tier == 'quick' else ('exc', 'base')
+        points = []
+        if tail is None:
+            points = [{'n_abs': n} for n in range(1, cap + 1)]
+        else:
+            head, last, stride = tail
+            points = [{'n_abs': n} for n in range(1, head + 1)]
+            points += [{'n_frac': round(j / 4000.0, 6)} for j in range(0, 4000, stride)]
+            points += [{'n_end': k} for k in range(last, -1, -1)]
+        for fl in flavours:
+            for a in range(0, len(points), XH_CHUNK):
+                chunk = []
+                for j, pt in enumerate(points[a:a + XH_CHUNK]):
+                    f = dict(pt, kind='F5', mode='nth')
+                    if fl == 'base' or (fl == 'alt' and (a + j) % 2):
+                        f['exc'] = 'base'
+                    chunk.append(f)
+                out.append((xi, chunk, a + XH_CHUNK >= len(points) and tail is None))
+    return out
+
+
+def gen_xh(tier, k):
+    import json
+    global _xshapes
+    if _xshapes is None:
+        _xshapes = xh_shapes()
+    xi, chunk, last = _xplans[tier][k]
+    name, world, warm, call, probes, cap, tiers, tail = _xshapes[xi]
+    ops = [{'op': 'call', 'cfg': c, 'abbr': a, 'pin': 1} for c, a in warm]
+    for f in chunk:
+        ops.append({'op': 'call', 'cfg': call[0], 'abbr': call[1], 'pin': 1, 'fault': dict(f), 'xh': [name, bool(last)]})
+        for cfg, abbr in probes:
+            ops.append({'op': 'call', 'cfg': cfg, 'abbr': abbr, 'pin': 2, 'closing': True})
+    ops.append({'op': 'repeat3', 'cfg': probes[0][0], 'abbr': probes[0][1], 'pin': 3})
+    return {'world': json.loads(json.dumps(world)), 'ops': ops, 'meta': {'exhaustive': name, 'placements': len(chunk)}}
+
+
 _plans = {}
+_xplans = {}
 _shapes = None
+_xshapes = None
 _scen = None
 
 
@@ -384,7 +477,14 @@ def sweep_size(tier):
         _plans[tier] = plan(tier)
     if _scen is None:
         _scen = scenarios()
-    return len(_plans[tier]) + len(_scen)
+    if tier not in _xplans:
+        _xplans[tier] = xh_plan(tier)
+    return len(_plans[tier]) + len(_scen) + len(_xplans[tier])
+
+
+def xh_size(tier):
+    sweep_size(tier)
+    return len(_xplans[tier]), sum(len(c) for _x, c, _l in _xplans[tier])
 
 
 def gen_sweep(tier, index):
@@ -393,6 +493,10 @@ def gen_sweep(tier, index):
         _plans[tier] = plan(tier)
     if _scen is None:
         _scen = scenarios()
+    if tier not in _xplans:
+        _xplans[tier] = xh_plan(tier)
+    if index >= len(_plans[tier]) + len(_scen):
+        return gen_xh(tier, index - len(_plans[tier]) - len(_scen))
     if index >= len(_plans[tier]):
         import json
         return json.loads(json.dumps(_scen[index - len(_plans[tier])]))
